@@ -298,7 +298,7 @@ CHECKS["C20"] = dict(
 ADDED = {
     "C03": " R4 also decides completeness of the enumeration: a box of half-width >= dsmax * cell length per axis with no early exit (a walk along lattice lines that stops at the first reflection beyond the limit is reported - found F21). R3 requires makerings to read the first reflection only where the list is not empty (found F27). (R5) cache coherence of gethkls / gethkls_xfab: every list returned is the one stored in self.peaks together with self.limit = dsmax. R5 also requires a list that depends on another argument than the limit (the space-group name of gethkls_xfab) to be cached only where that argument is None (found F31).",
     "C13": " (R6) sparse_smooth adds exactly the stored pixels with |di| <= 1 and |dj| <= 1 with weights 4/16, 2/16, 1/16: finite case analysis of the guards of the accumulation over (di, dj) in [-3, 3]^2. R6 evaluates the guards with C int arithmetic at the far distances +-46340, +-46341, +-65535 as well (found F18). (R7) the label / signal array that the sparseframe wrappers store with set_pixels does not come out of module-level state. (R8) the walk stage's thread partition multiplies the pixel count by the thread index in a 64-bit type (found F25: int overflow for pixels x threads >= 2^31). R3 also requires every return of localmaxlabel after the parallel region has opened to be dominated by the end of the last stage (no early return that leaves labels from stage 1 / 2).",
-    "C11": " (R6) Python callers of the connected-pixel kernels keep label 0 = background when they renumber labels (np.where(L > 0, L + k, 0) or an L > 0 mask). R3 also requires dset_find to iterate (recursion or loop) up to the root. R3 also requires dset_makeunion to link the roots of both labels (dset_find on both), and R4 that the splat kernel's output loop writes every label cell on every path, 0 for pixels below threshold (found F26).",
+    "C11": " (R6) Python callers of the connected-pixel kernels keep label 0 = background when they renumber labels (np.where(L > 0, L + k, 0) or an L > 0 mask). R3 also requires dset_find to iterate (recursion or loop) up to the root. R3 also requires dset_makeunion to link the roots of both labels (dset_find on both), and R4 that the splat kernel's output loop writes every label cell on every path, 0 for pixels below threshold (found F26). R2 decides each threshold test for the four orderings of (value, threshold) including unordered (NaN): only 'above' is foreground in every variant (found F35). R3 decides dset_link on nine small models.",
     "C04": " (R6) TensorMap: the set of maps derived from UBI alone is computed from the property bodies and every one of them must be deleted by clear_cache, which must run in the UBI setter and in add_map('UBI'). (R7) no numba signature in tensor_map.py declares a contiguous layout ('::1'): numba does not enforce it and strided 3x3 views would be read as 9 consecutive doubles. (R8) indexing.ubitoB, read as a word over ubi, transposes, inverses and a Cholesky factor (axiom chol(W).chol(W)^T = W), satisfies B^T.B = inverse(ubi.ubi^T) and is a transposed Cholesky factor (found F20). (R9) unitcell.__init__ stores a copy of the lattice parameters it derives g, gi and B from, never the caller's array.",
     "C01": " (R3 now also runs the numba / reference comparison for every on/off combination of t_x, t_y, t_z, so 'no translation' shortcuts are taken exactly when they apply.) R6 also checks definite initialisation of the private variables of the OpenMP loops (E3). (R7) on the fast route of columnfile.updateGeometry / updateGV the Ctransform whose methods are called is constructed from pars.parameters on every path of the call - one kept from an earlier call under an identity test of the (mutable) parameters object is reported. (R8) in transform.py an array made from an argument and updated in place with arithmetic results is made with a float dtype (found F19: integer pixel coordinates were truncated in compute_xyz_lab). (R9) refinegrains.fit recomputes the lab coordinates whenever a varied parameter is one that transform.compute_xyz_lab takes: the 'recompute' test is compared with that function's signature. (R10) every call of the numba compute_gve in point_by_point.py receives omega multiplied by a formal that the enclosing function's call sites feed from the parameters' 'omegasign', as get_local_gv hands it to cImageD11.compute_gv (found F28).",
     "C02": " (R7) compute_xyz_from_tth_eta masks a projected position only where the ray . detector-normal product is zero - never by its sign, which flips with the handedness of the detector axes. (R8) the 'no translation' shortcut of compute_tth_eta_from_xyz is guarded by every translation component that compute_grain_origins receives being zero. (R9) no function of transform.py / gv_general.py chooses between the (3, n) and (n, 3) layouts by testing a shape entry against 3 and transposing (ambiguous for exactly three vectors).",
@@ -309,9 +309,9 @@ ADDED = {
     "C10": " R2 also shows that the tensor an object returns does not depend on which tensors it was asked for before (memo tables / cached decompositions). R5: in TensorMap every tensor_crystal_to_sample / tensor_sample_to_crystal call is applied to a map in the frame the function converts from, with self.U as the rotation (the defect F17, fixed by 7a264cb, was found by it). (R6) TensorMap.dzero_unitcell pairs each voxel with self.phases[<its phase id>] (items() under the mask phase_ids == key, or a subscript by key), never with a list of the dict's values indexed by phase id.",
     "C12": " R1 requires the field compared in a min / max update to be the field updated and the value taken to be the value compared. (R6) peaksearcher.peaksearch gives every frame to the label image of every threshold: peaksearch then mergelast on every path of every iteration, no break / return / early continue in the loop over the thresholds. R1 reads chained assignments and decides the bounding-box seeds on their linear form (a running minimum starts at or above the extent of its own axis).",
     "C14": " R3 requires the int8 mask tests of mask_to_coo to be (in)equalities with zero (sign-agnostic), decides the merge kernels by finite case analysis over the key orderings, and checks the last run of compress_duplicates semantically. R3 also evaluates the statements before the merge loop of sparse_overlaps on all pairs of small sorted frames: the cursors must be at or before the first common pixel with no hit recorded. R3 also requires every return of compress_duplicates that can be positive to be dominated by a store into the count array; R4 finds the histogram buffer by role (5th argument of compress_duplicates). (R6) every array a sparse kernel writes is intent(inout/out) in the .pyf or a confirmed site whose callers allocate the exact type, and the callers of compress_duplicates hand it int32 pair arrays they own (found F24). (R7) overlaps_linear.__call__ returns a table allocated in that call, not a view of a buffer kept on the object.",
-    "C15": " R2 is a path property on the flow graph (every path to the renumbering passes 'latest sweep count == 0') and requires that the edge arrays are never rebound between sweeps. (R6) n_pk2d stores s = srI/sI, f = scI/sI, omega.flat[frame], dty.flat[frame] - the quantities numbapkmerge averages, with no arithmetic on one side only. R3 reports, whatever the loop layout, a root counter incremented under a sign test of labels[i] while non-roots are tagged by negation (the tag of a pointer to peak 0 is -0 == 0).",
+    "C15": " R2 is a path property on the flow graph (every path to the renumbering passes 'latest sweep count == 0') and requires that the edge arrays are never rebound between sweeps. (R6) n_pk2d stores s = srI/sI, f = scI/sI, omega.flat[frame], dty.flat[frame] - the quantities numbapkmerge averages, with no arithmetic on one side only. R3 reports, whatever the loop layout, a root counter incremented under a sign test of labels[i] while non-roots are tagged by negation (the tag of a pointer to peak 0 is -0 == 0). (R7) every SharedMemory(create=True, size=...) asks for at least one byte: the pair table of a scan without overlaps is empty (found F34).",
     "C16": " (R6) outside sym_u, group operators are only multiplied from the left onto a UBI, never onto U / U^T / UB. P1 obtains the operator of each generator string by evaluating m_from_string itself in the value-numbering interpreter (exact integers), so the row / column convention is whatever the function computes. R2 also requires that no additem() follows the store of the group into symcache on any path. R3 decides the strictness of the keep test on the effective operator (polarity and negations on the way to the update) and accepts a continue taken on the outcome of the keep test.",
-    "C17": " R1 also requires set_attributes to re-point every attribute on every path (no early exit for special tables). (R7) __setattr__ binds the attribute of a column title to the stored column self.__data[index], not to the assigned value (found F22). (R8) list operations on the column storage run only where it is known to be a list, since get_bigarray() makes it an ndarray (found F23).",
+    "C17": " R1 also requires set_attributes to re-point every attribute on every path (no early exit for special tables). (R7) __setattr__ binds the attribute of a column title to the stored column self.__data[index], not to the assigned value (found F22). (R8) list operations on the column storage run only where it is known to be a list, since get_bigarray() makes it an ndarray (found F23). (R9) reorder reads every column before it stores any, because two titles may hold the same array - addcolumn keeps the caller's array (found F32). R3 also requires set_bigarray to read the first column only when there is one (found F33).",
     "C18": " R3 flags an exact == between int(value) and float(value) in the parameter type coercion (false beyond 2**53). R5 reports a reader loop that takes the h5py group's own (alphabetical) iteration order. R1 requires all nine U and all nine UBI element titles to have a format with at least 9 decimals in the evaluated FORMATS table; R5 reads the HDF5 writer by role. R5 requires the HDF5 writer to decide 'attribute present' with `is not None` / hasattr, never by truthiness (npks == 0, name == '' would be dropped). R4 also requires the tests that recognise a '#key value' line of a grain file to look at the start of the line, not to search the whole line for text that must be absent (found F30).",
     "C19": " R2 reads get_voxel_idx through its temporaries before comparing with geometry.dty_values_grain_in_beam_sincos. (R6) no conversion function reads module-level state that the module modifies (a memo validated by object identity or not validated at all is a violation; one validated by comparing values is left undecided). (R7) no conversion function of geometry.py modifies an argument in place. (R8) no result of a function memoised with functools.lru_cache / cache in roi_iradon.py / geometry.py is modified in place by its caller.",
     "C20": " R6 keys its confirmed sites by (array, flat index polynomial, linear facts) instead of source text, analyses helpers inside their callers, covers memset / memcpy, and raises a violation only with positive evidence (a recorded guarded access that lost its proof, a witness that passes every dominating test, an unchecked input element used as index, an affine witness). R6 decides 'end of block <= extent' over the arguments alone when the end of a memset / memcpy region is free of run-time data although its start is not; a regression on a guarded access is reported only when one of the dominating conditions recorded for it is gone. The ledger follows walking pointers (p += c, p++ in loop bodies and for-headers, nested loops with invariant trip counts).",
